@@ -386,5 +386,5 @@ META = {
             "closed-form cell indices, a_uint as nat; hand-written model tied bit for bit on generated matrices (orders 1-12 "
             "quick, 1-24 thorough) only. On finite inputs whose intermediates overflow the C reports success with inf/NaN "
             "factors (x < A_REAL_MIN is false for NaN): treated as outside the property's rounding model and counted in the evidence.",
-    "technique": "Rocq proof over R (loop invariants P_k A = L_k R_k, permutation parity, triangular solves) + bit-exact primitive-float model vs C correspondence + exact-rational residual oracle",
+    "technique": "Rocq proof over R (loop invariants P_k A = L_k R_k, permutation parity, triangular solves) + the LDL^T/Cholesky families and the permutation-free PLU routines re-translated on every run (orders 0..4, loops unrolled, callees inlined) and proved equal to the model for all entries + bit-exact primitive-float model vs C correspondence + exact-rational residual oracle",
 }
